@@ -329,6 +329,9 @@ Definition binop_val (o : binop) (x y : val) : R val :=
       | BNe => ROk (VB (negb (text_eqb a b)))
       | _ => RErr (T "type")
       end
+  (* a number next to a string is printed: "a" + 1 = "a1" *)
+  | VS a, VI b => match o with BAdd => ROk (VS (a ++ show_Z b)) | _ => RErr (T "type") end
+  | VI a, VS b => match o with BAdd => ROk (VS (show_Z a ++ b)) | _ => RErr (T "type") end
   | _, _ => RErr (T "type")
   end.
 
